@@ -257,3 +257,194 @@ def alternative_route(p, numerator) -> bool:
         if "isinstance(" in ct and ("QBytesTensor" in ct or "QTensor" in ct) and t is True:
             return True
     return False
+
+
+# ---------------------------------------------------------------------------------------------------------------------------------------
+# Shape domain: the range expression evaluated, for one concrete (ndim, axis), over "which dims of the base each dim of the result spans".
+# Used when the numerator of a scale is not a bare amax/max call (a reduction over a flattened or reshaped view: seed C03-51).
+
+class _Size:
+    """The extent of one (possibly merged) group of dims of the base."""
+
+    def __init__(self, group):
+        self.group = frozenset(group)
+
+
+class SymShape:
+    def __init__(self, groups, absd=False, reduced=frozenset(), raw_reduced=False):
+        self.groups = [frozenset(g) for g in groups]
+        self.absd = absd  # magnitudes taken before the reduction
+        self.reduced = frozenset(reduced)  # dims of the base folded by a max
+        self.raw_reduced = raw_reduced  # a max was taken over signed values
+
+    def with_groups(self, groups):
+        return SymShape(groups, self.absd, self.reduced, self.raw_reduced)
+
+
+def shape_eval(expr: ast.AST, ndim: int, axis, base_name: str = "base") -> SymShape:
+    """Evaluate a tensor expression over `base` (abs / flatten / amax / max / reshape / view / unsqueeze and the tuple arithmetic of their
+    arguments) in the shape domain. Anything else raises AnalysisError: the caller leaves the obligation undecided."""
+
+    def norm(d, n):
+        if not isinstance(d, int) or isinstance(d, bool) or not -n <= d < max(n, 1):
+            raise AnalysisError(f"shape domain: dim {d} out of range for rank {n}")
+        return d % n if n else 0
+
+    def reshape(t: SymShape, target):
+        if len(target) == 1 and isinstance(target[0], (list, tuple)):
+            target = list(target[0])
+        src = [g for g in t.groups if g]
+        if sum(1 for x in target if x == -1 and not isinstance(x, _Size)) > 1:
+            raise AnalysisError("shape domain: two -1 in a reshape")
+        out, explicit = [], []
+        for x in target:
+            if isinstance(x, _Size):
+                out.append(x.group)
+                if x.group:
+                    explicit.append(x.group)
+            elif x == 1:
+                out.append(frozenset())
+            elif x == -1:
+                out.append(None)
+            else:
+                raise AnalysisError(f"shape domain: reshape to a literal extent {x!r}")
+        if None not in out:
+            if explicit != src:
+                raise AnalysisError("shape domain: reshape does not keep the order of the extents")
+            return t.with_groups(out)
+        k = out.index(None)
+        before = [g for g in out[:k] if g]
+        after = [g for g in out[k + 1:] if g]
+        if src[:len(before)] != before or (after and src[len(src) - len(after):] != after) or len(before) + len(after) > len(src):
+            raise AnalysisError("shape domain: reshape does not keep the order of the extents")
+        mid = src[len(before):len(src) - len(after)]
+        out[k] = frozenset().union(*mid) if mid else frozenset()
+        return t.with_groups(out)
+
+    def method(t: SymShape, name, args, kw):
+        n = len(t.groups)
+        if name in ("abs", "absolute") and not args:
+            if t.reduced:
+                return t
+            return SymShape(t.groups, True, t.reduced, t.raw_reduced)
+        if name in ("contiguous", "detach", "clone") and not args:
+            return t
+        if name == "flatten":
+            a = norm(args[0] if args else kw.get("start_dim", 0), n)
+            b = norm(args[1] if len(args) > 1 else kw.get("end_dim", -1), n)
+            if a > b:
+                raise AnalysisError("shape domain: flatten(start > end)")
+            return t.with_groups(t.groups[:a] + [frozenset().union(*t.groups[a:b + 1])] + t.groups[b + 1:])
+        if name in ("amax", "max", "amin", "min"):
+            dim = kw.get("dim", args[0] if args else None)
+            keep = kw.get("keepdim", args[1] if len(args) > 1 else False)
+            if name in ("max", "min") and dim is not None:
+                raise AnalysisError("shape domain: max(dim) returns (values, indices)")
+            if name in ("amin", "min"):
+                raise AnalysisError("shape domain: min in a symmetric range")
+            dims = list(range(n)) if dim is None or dim == [] else [norm(d, n) for d in (dim if isinstance(dim, (list, tuple)) else [dim])]
+            red = frozenset().union(*[t.groups[d] for d in dims]) if dims else frozenset()
+            groups = [(frozenset() if i in dims else g) for i, g in enumerate(t.groups) if keep or i not in dims]
+            if dim is None:
+                groups = []
+            return SymShape(groups, t.absd, t.reduced | red, t.raw_reduced or not t.absd)
+        if name in ("reshape", "view"):
+            return reshape(t, list(args))
+        if name == "unsqueeze" and len(args) == 1:
+            d = args[0]
+            d = d + n + 1 if d < 0 else d
+            return t.with_groups(t.groups[:d] + [frozenset()] + t.groups[d:])
+        raise AnalysisError(f"shape domain: method {name}")
+
+    def ev(e):
+        if isinstance(e, ast.Constant) and (isinstance(e.value, (int, bool)) or e.value is None):
+            return e.value
+        if isinstance(e, ast.Name):
+            if e.id == base_name:
+                return SymShape([{i} for i in range(ndim)])
+            if e.id == "axis":
+                return axis
+            raise AnalysisError(f"shape domain: unknown name {e.id}")
+        if isinstance(e, ast.Attribute):
+            if e.attr == "ndim":
+                v = ev(e.value)
+                if isinstance(v, SymShape):
+                    return len(v.groups)
+            if e.attr == "shape":
+                v = ev(e.value)
+                if isinstance(v, SymShape):
+                    return tuple(_Size(g) for g in v.groups)
+            raise AnalysisError(f"shape domain: attribute {U(e)[:40]}")
+        if isinstance(e, ast.Call):
+            args = [ev(a) for a in e.args]
+            kw = {k.arg: ev(k.value) for k in e.keywords if k.arg}
+            if isinstance(e.func, ast.Attribute):
+                if U(e.func.value) == "torch":
+                    if args and isinstance(args[0], SymShape):
+                        return method(args[0], e.func.attr, args[1:], kw)
+                    raise AnalysisError(f"shape domain: torch.{e.func.attr}")
+                recv = ev(e.func.value)
+                if isinstance(recv, SymShape):
+                    if e.func.attr in ("dim",) and not args:
+                        return len(recv.groups)
+                    if e.func.attr == "size" and not args:
+                        return tuple(_Size(g) for g in recv.groups)
+                    return method(recv, e.func.attr, args, kw)
+                raise AnalysisError(f"shape domain: call {U(e.func)[:40]}")
+            f = U(e.func)
+            if f in ("tuple", "list") and len(args) == 1 and isinstance(args[0], (list, tuple)):
+                return tuple(args[0])
+            if f == "len" and len(args) == 1 and isinstance(args[0], (list, tuple)):
+                return len(args[0])
+            if f == "range" and all(isinstance(a, int) for a in args):
+                return tuple(range(*args))
+            raise AnalysisError(f"shape domain: call {f[:40]}")
+        if isinstance(e, (ast.Tuple, ast.List)):
+            out = []
+            for x in e.elts:
+                if isinstance(x, ast.Starred):
+                    out.extend(ev(x.value))
+                else:
+                    out.append(ev(x))
+            return tuple(out)
+        if isinstance(e, ast.BinOp):
+            a, b = ev(e.left), ev(e.right)
+            if isinstance(a, SymShape) or isinstance(b, SymShape) or isinstance(a, _Size) or isinstance(b, _Size):
+                raise AnalysisError("shape domain: arithmetic on a tensor or an extent")
+            try:
+                if isinstance(e.op, ast.Add):
+                    return a + b
+                if isinstance(e.op, ast.Sub):
+                    return a - b
+                if isinstance(e.op, ast.Mult):
+                    return a * b
+                if isinstance(e.op, ast.FloorDiv):
+                    return a // b
+            except TypeError:
+                pass
+            raise AnalysisError("shape domain: operator")
+        if isinstance(e, ast.UnaryOp) and isinstance(e.op, ast.USub):
+            v = ev(e.operand)
+            if isinstance(v, int):
+                return -v
+        if isinstance(e, ast.Subscript):
+            v = ev(e.value)
+            if isinstance(v, tuple):
+                if isinstance(e.slice, ast.Slice):
+                    lo, hi = (ev(e.slice.lower) if e.slice.lower else None), (ev(e.slice.upper) if e.slice.upper else None)
+                    if e.slice.step is None:
+                        return v[lo:hi]
+                else:
+                    i = ev(e.slice)
+                    if isinstance(i, int):
+                        return v[i]
+        if isinstance(e, ast.IfExp):
+            c = fold_dims(e.test, ndim, axis, base_name)
+            if isinstance(c, bool):
+                return ev(e.body if c else e.orelse)
+        raise AnalysisError(f"shape domain: {type(e).__name__} `{U(e)[:40]}`")
+
+    r = ev(expr)
+    if not isinstance(r, SymShape):
+        raise AnalysisError("shape domain: the expression is not a tensor over the base")
+    return r
